@@ -424,16 +424,13 @@ Theorem bool_past_end_differs :
                   bd_past (snd (read_lit k (bd_init l))) = true.
 Proof. exists [0], [255], 12%nat. vm_compute. split; [discriminate|reflexivity]. Qed.
 
-(** ** The frame-level statement (not proved here)
-    With the lemmas above lifted through every reader of [Vp8Syntax] and the row
-    loops of [Vp8Spec] one obtains the statement below: appending bytes to a VP8
-    frame leaves the first partition and all token partitions but the last
-    unchanged and extends the last one, whose decoder stays [rel]ated to the
-    original as long as no past-end read occurs -- which [decode_yuv] turns into
-    E_TRUNC.  The lifting is mechanical but long (some 25 readers, each needing a
-    past-flag monotonicity lemma and a simulation lemma); it is not done.  The
-    statement is kept as the full statement; harness/c17 evaluates it on the real
-    decoder for every prefix of every generated lossy file. *)
+(** ** The frame-level statement
+    Appending bytes to a VP8 frame leaves the first partition and all token
+    partitions but the last unchanged and extends the last one, whose decoder stays
+    [rel]ated to the original as long as no past-end read occurs -- which
+    [decode_yuv] turns into E_TRUNC.  The statement below is proved in
+    [Riff.PrefixVp8Frame] ([vp8_frame_prefix_monotone]) by lifting the lemmas above
+    through every reader of [Vp8Syntax] and the row loops of [Vp8Spec]. *)
 From Webp Require Vp8.Vp8Spec.
 Definition vp8_frame_prefix_full_statement : Prop :=
   forall d ext r, bytes_ok d -> bytes_ok ext ->
